@@ -55,15 +55,20 @@ theorem fact_prev_verifier :
 theorem fact_verifier_order :
     Facts.C06.stateVerifiers = ["dag.NewPrevTransactionsVerifier", "dag.NewTransactionSignatureVerifier"] := by decide
 
-/-- embedded key first, otherwise the key resolver; the resolver loop stops at the first result that is not exactly ErrNotFound -/
+/-- embedded key first, otherwise the key resolver; the ECDSA algorithm must fit the key's curve (jws.Verify only checks the
+    family: the signature verdicts `Env.sigJwk` / `Env.sigKey` are RFC 7518 verdicts — ES256+P-256, ES384+P-384, ES512+P-521); the resolver loop stops at the first result that is not exactly ErrNotFound -/
 theorem fact_signature_verifier :
-    Facts.C06.sigVerifierConds = ["transaction.SigningKey() != nil", "err != nil", "err != nil"] ∧
+    Facts.C06.sigVerifierConds = ["transaction.SigningKey() != nil", "err != nil", "err != nil",
+      "!jwx.AlgorithmFitsKey(jwa.SignatureAlgorithm(transaction.SigningAlgorithm()), signingKey)"] ∧
     Facts.C06.keyResolverConds = ["err == nil", "err != resolver.ErrNotFound", "err != nil", "err != nil", "vm == nil"] := by decide
 
 /-- `state.Add` = one read transaction, then — only AFTER it — `addMutex` and one write transaction under the write lock
     whose first statement is the presence re-check. The mutex makes write + rollback handler one critical section, it does
     NOT cover the read transaction: two Adds of the same transaction can both pass phase 1 before either writes, so the
-    re-check is not redundant (dropping it is not an equivalent mutant: schedule [0,1,0,1] stores/counts/digests the ref twice;
+    re-check is not redundant; it is released by `AfterCommit(unlock)` or, on failure, by the deferred `unlock` AFTER db.Write
+    returned, i.e. after the rollback handler reloaded the trees (go-stoabs releases its own write lock BEFORE it calls the
+    rollback handlers: without the mutex a sibling Add could persist leaves that still contain the rolled-back transaction —
+    harness op `rbwin`); the re-check is not redundant (dropping it is not an equivalent mutant: schedule [0,1,0,1] stores/counts/digests the ref twice;
     `concurrent_adds_serialise` is proved for exactly this step structure, and the schedule explorer parks threads before and
     right after the read transaction, never while they hold the mutex); inside: payload hash check, writePayload, saveEvent, graph.add, saveEvent, updateState -/
 theorem fact_add_two_phases :
@@ -73,7 +78,9 @@ theorem fact_add_two_phases :
     Facts.C06.addWriteCalls = ["s.graph.isPresent", "hash.SHA256Sum", "s.payloadStore.writePayload", "s.saveEvent",
                                "s.graph.add", "s.saveEvent", "s.updateState"] ∧
     "!transaction.PayloadHash().Equals(payloadHash)" ∈ Facts.C06.addWriteConds ∧
-    "payload != nil" ∈ Facts.C06.addWriteConds := by decide
+    "payload != nil" ∈ Facts.C06.addWriteConds ∧
+    Facts.C06.addUnlocking = ["unlock := unlockOnce.Do(s.addMutex.Unlock)", "defer unlock()"] ∧
+    Facts.C06.addWriteOptArgs = ["stoabs.AfterCommit(unlock)"] := by decide
 
 /-- a rolled-back write reloads the volatile copies (XOR/IBLT trees, atomic clock) with a FRESH context: the reload must
     not fail because the caller's context — the reason for the rollback — is cancelled (the model's rollback = old state) -/
